@@ -130,14 +130,15 @@ Proof. exact bisect_empty. Qed.
 Theorem C08_bisect_out_of_range : forall pl idx i, In i idx -> (length (pl_segments pl) <= i)%nat ->
   bisect ROps pl idx = Raise IndexError.
 Proof. exact bisect_out_of_range. Qed.
-(* ret_new_indices: when no segment is chosen twice (distinct end vertices) every original vertex is found at its
-   reported new index.  PARTIAL: the reported indices of the INSERTED points are not characterised by a theorem
-   (compared with the model on every correspondence case; the oracle checks that each one holds its midpoint). *)
-Theorem C08_bisect_new_indices_partial : forall pl idx r, bisect ROps pl idx = Ok r ->
-  NoDup (map (edge_end pl) idx) ->
-  forall k v, nth_error (pv pl) k = Some v ->
-    exists i, nth_error (snd (fst r)) k = Some i /\ nth_error (pv (fst (fst r))) i = Some v.
-Proof. exact bisect_orig_indices. Qed.
+(* ret_new_indices, when no segment is chosen twice (distinct end vertices): every original vertex and every inserted
+   midpoint is found at its reported new index. (A segment listed twice makes with_insertions report wrong
+   indices: that is C09's finding about repeated insertion indices, outside "index sets".) *)
+Theorem C08_bisect_new_indices : forall pl idx r, bisect ROps pl idx = Ok r -> NoDup (map (edge_end pl) idx) ->
+  (forall k v, nth_error (pv pl) k = Some v ->
+     exists i, nth_error (snd (fst r)) k = Some i /\ nth_error (pv (fst (fst r))) i = Some v) /\
+  (forall j i s, nth_error idx j = Some i -> nth_error (pl_segments pl) i = Some s ->
+     exists m, nth_error (snd r) j = Some m /\ nth_error (pv (fst (fst r))) m = Some (seg_mid ROps s)).
+Proof. exact bisect_new_indices. Qed.
 
 (* ---- subdivide_segment / subdivide_segments ---- *)
 Theorem C08_subdivide_segment_spec : forall p1 p2 (num : Z) endpoint, (2 <= num)%Z ->
@@ -181,6 +182,6 @@ Definition C08_all := (C08_lengths_sum_centroid, C08_segments_form_a_chain, C08_
   C08_point_along_path_out_of_range, C08_subdivide_minimal_parts, C08_subdivide_untouched,
   C08_subdivide_inserted_even, C08_subdivide_keeps_originals, C08_subdivide_indices_increase,
   C08_subdivide_closedness, C08_subdivide_mask_refused, C08_subdivide_length_preserved, C08_bisect_spec,
-  C08_bisect_empty_is_identity, C08_bisect_out_of_range, C08_bisect_new_indices_partial, C08_subdivide_segment_spec,
+  C08_bisect_empty_is_identity, C08_bisect_out_of_range, C08_bisect_new_indices, C08_subdivide_segment_spec,
   C08_subdivide_segment_refuses, C08_subdivide_segments_spec, C08_subdivide_segments_zero_length_refuted).
 Print Assumptions C08_all.
